@@ -4,7 +4,12 @@ import random
 WORDS = ["a", "b", "c", "id", "name", "value", "items", "data", "type", "x", "y", "k1", "k2", "k3", "meta", "tags"]
 PLAIN = ["foo", "bar", "baz", "qux", "red", "green", "blue", "a,b", "a", "b", "x y", 'q"t', "back\\slash",
          "new\nline", "it's", "tab\t", "]", "é", "ß", "日本", "😀", "", "N/A", "none", "yes", "no",
-         "ls\u2028x", "ps\u2029x", "nel\x85x", "vt\x0bx", "ff\x0cx", "fs\x1cx", "cr\rx", "nul\x00x"]
+         "ls\u2028x", "ps\u2029x", "nel\x85x", "vt\x0bx", "ff\x0cx", "fs\x1cx", "cr\rx", "nul\x00x",
+         # short (< 20 characters) but long when escaped: non-ASCII words, quotes / backslashes / control characters
+         "тестовый", "données été", "日本語のテキスト", "😀😀😀😀", 'say "hi" \\ ok\t', '"""\\\\"""\n\n',
+         # values that differ only by letter case
+         "ok", "OK", "Ok", "GET", "get", "Get"]
+CASEPOOL = ["ok", "OK", "Ok", "oK", "GET", "get", "Get", "ß", "SS", "ss"]
 PSEUDO = ["1", "-2", "+3", "0", "1.5", "-0.5", "1e3", "1E-2", ".5", "5.", "true", "false", "True", "FALSE",
           " 12 ", "1_000", "١٢", "nan", "inf", "-inf", "Infinity", "0x10", "1__0", "_1", "12\n",
           "2020-01-02", "2020-01", "20200102", "12:30", "12:30:45.123", "2020-01-02T03:04:05",
@@ -44,6 +49,8 @@ def gen_string(rng, pseudo_p=0.3):
         return long_string(rng, rng.choice([19, 20, 21, 25]))
     if r < pseudo_p + 0.12:
         return "v%d" % rng.randrange(40)       # many distinct short literals (overflow by count)
+    if r < pseudo_p + 0.17:
+        return rng.choice(CASEPOOL)            # literals of one field that differ only by case
     return rng.choice(PLAIN)
 
 
@@ -329,6 +336,42 @@ def gen_chain_samples(rng):
         samples.append({"h%d" % order[j]: nodes[order[j]] for j in range(i, min(n, i + k))})
         i += k
     return samples
+
+
+PSEUDO_KINDS = {
+    "int": ["1", "-2", "42"], "float": ["1.5", "-0.5", "1e3"], "bool": ["true", "false", "True"],
+    "date": ["2021-03-04", "2020-01-02"], "time": ["12:30", "10:20:30"],
+    "datetime": ["2021-03-04T10:20:30", "2020-01-02T03:04:05Z", "2020-01-02 03:04"], "plain": ["foo", "N/A"],
+}
+
+
+def gen_pseudo_mix(rng):
+    """samples in which one field holds strings of two or three different pseudo-type kinds (int / float / bool / date /
+    time / datetime / plain), within one model and across two models that merge"""
+    kinds = rng.sample(sorted(PSEUDO_KINDS), k=rng.choice([2, 2, 3]))
+    vals = [rng.choice(PSEUDO_KINDS[k]) for k in kinds]
+    rest = {"id": 1, "name": "n"}
+    samples = [dict(rest, at=v) for v in vals]
+    if rng.random() < 0.4:
+        samples.append(dict(rest))                      # the field is also absent once
+    if rng.random() < 0.4:
+        samples.append(dict(rest, at=None))
+    rng.shuffle(samples)
+    if rng.random() < 0.4:
+        # two holders of the same shape, each with one kind only: the kinds meet when the models are merged
+        return [{"first": dict(rest, at=vals[0], k1=1, k2=2), "second": dict(rest, at=vals[1], k1=1, k2=2),
+                 "list": samples}]
+    return samples
+
+
+def pseudo_mix_sweep():
+    """every pair and triple of pseudo-type kinds in one field (deterministic)"""
+    import itertools
+    kinds = sorted(PSEUDO_KINDS)
+    rest = {"id": 1, "name": "n"}
+    for r in (2, 3):
+        for combo in itertools.combinations(kinds, r):
+            yield [dict(rest, at=PSEUDO_KINDS[k][i % len(PSEUDO_KINDS[k])]) for i, k in enumerate(combo)]
 
 
 def gen_shared_samples(rng):
